@@ -482,6 +482,10 @@ def oracle(case):
     if exp_err:
         out = impl_run(case)
         if out.get("err") != exp_err:
+            for sub in _subtrees_postorder(tree):  # a legal sub-expression that already fails explains it
+                r = _check(sub, case, False)
+                if r is not None:
+                    return {"what": f"{_node_name(sub)}: {r[0]}", "key": f"{r[1]}:{_node_name(sub)}"}
             return {"what": f"an illegal operand combination did not raise {exp_err}: got {out.get('err', 'a result')}", "key": "no-" + exp_err}
         return None
     if case.get("kind") == "error":
@@ -582,8 +586,28 @@ class _Gen:
         c.append("characteristic_function")
         return c
 
+    RESTRICTED = {"log": (0.1, 5.0), "arcsin": (-0.9, 0.9), "arccos": (-0.9, 0.9), "arctanh": (-0.9, 0.9), "arccosh": (1.1, 6.0), "tan": (-1.2, 1.2)}
+
+    def adapt(self, child, L, U):
+        """affine map (two more AD operations) taking the values of `child` into [L, U]"""
+        r = self.rng
+        cv = self.val(child)
+        lo, hi = float(np.min(cv)), float(np.max(cv))
+        sc = 1.0 if hi - lo < 1e-9 else min(4.0, (U - L) / (hi - lo) * r.uniform(0.4, 1.0))
+        sc = float(Fraction(sc).limit_denominator(32)) or 1 / 32
+        room = (U - L) - sc * (hi - lo)
+        sh = L + max(room, 0.0) * r.random() - sc * lo
+        t = {"k": "op", "op": r.choice(["mul", "rmul"]), "kind": "S", "c": frac(sc), "int": False, "syntax": r.random() < 0.5, "a": child}
+        return {"k": "op", "op": r.choice(["add", "radd"]), "kind": "S", "c": frac(sh), "int": False, "syntax": r.random() < 0.5, "a": t}
+
     def mk_fn(self, child):
         r = self.rng
+        if r.random() < 0.3:
+            f = r.choice(sorted(self.RESTRICTED))
+            child = self.adapt(child, *self.RESTRICTED[f])
+            cv = self.val(child)
+            if f in self.unary_candidates(cv):
+                return {"k": "fn", "f": f, "p": [], "a": child}
         cv = self.val(child)
         f = r.choice(self.unary_candidates(cv))
         if f == "safe_power" and r.random() < 0.75:
@@ -717,7 +741,7 @@ class _Gen:
         if depth <= 0 or r.random() < 0.12:
             return self.leaf(size)
         for _ in range(6):
-            kind = r.choices(["fn", "opc", "opad", "matmul", "slice", "l2", "max", "same"], weights=[26, 22, 22, 9, 8, 5, 6, 2])[0]
+            kind = r.choices(["fn", "opc", "opad", "matmul", "slice", "l2", "max", "same"], weights=[26, 20, 26, 9, 8, 5, 6, 2])[0]
             t = None
             if kind == "fn":
                 c = self.tree(depth - 1, size)
